@@ -97,8 +97,13 @@ func (scb *SchemaClientBoundImpl) Retrieve(ctx context.Context, path *sdcpb.Path
 		Path:            path,
 		WithDescription: false,
 	})
+	// errors are not remembered, a failure of the schema server might be transient,
+	// the next lookup has to ask again
+	if err != nil {
+		return nil, err
+	}
 	entry.schemaRsp = schema
-	entry.err = err
+	entry.err = nil
 	entry.ready = true
 
 	return entry.Get()
